@@ -38,7 +38,7 @@ class C03(Prop):
 
     def plan(self, tier):
         if tier == "quick":
-            return {"units": 1500, "budget_s": 100, "block": 15}
+            return {"units": 1000, "budget_s": 100, "block": 10}
         return {"units": 45000, "budget_s": 1700, "block": 30}
 
     # ---- corpus
@@ -116,6 +116,8 @@ class C03(Prop):
         elif m == "raw_multi":
             m = "raw_command"
             a = [E(b"gets " + pfx + b"k1 " + pfx + b"k2"), E(b"\r\nEND\r\n")]
+            if not any(st["t"] == "direct" and codec.dec(st["key"]) in (pfx + b"k1", pfx + b"k2") for st in steps):
+                steps.append({"t": "direct", "node": 0, "key": E(pfx + b"k1"), "value": E(b"present"), "flags": 0})
         elif m == "raw_config":
             m = "raw_command"
             a = [E(b"config get cluster")]
@@ -222,6 +224,7 @@ class C03(Prop):
                 self._cache.clear()
             r = engine.execute(b, ())
             hit = {c.step: c for c in r.calls}
+            hit["own"] = {(v["oracle"], v["step"]) for v in ownership_violations(r)}
             self._cache[key] = hit
         return hit
 
@@ -250,7 +253,9 @@ class C03(Prop):
                                 disc=("follow-up" if tag == "follow" else None),
                                 whole=b.enc_outcome() if b else None, got=rec.enc_outcome(),
                                 pieces=rec.pieces[:40]))
-        out.extend(ownership_violations(res))
+        # wire-level observations count only when the whole-reply delivery of the same entry does not show them
+        # (e.g. a raw_command whose end token never comes waits in both)
+        out.extend(v for v in ownership_violations(res) if (v["oracle"], v["step"]) not in base.get("own", ()))
         out.sort(key=lambda v: (v["step"] if v["step"] is not None else -1))
         return out
 
